@@ -9,6 +9,11 @@ import (
 	"github.com/samaritan-proxy/samaritan/proc/redis/hotkey"
 )
 
+type heldList struct {
+	list  []hotkey.HotKey
+	names []string
+}
+
 func init() {
 	// ---- the per-backend counter: structure after every operation ----
 	register("c19", func() {
@@ -113,6 +118,7 @@ func init() {
 				ctrs = append(ctrs, col.AllocCounter(fmt.Sprintf("b%d", b)))
 			}
 			var steps, outs []string
+			var heldLists []heldList
 			accessed := map[string]bool{}
 			for s, ns := 0, 1+r.intn(8); s < ns; s++ {
 				switch r.intn(5) {
@@ -141,6 +147,23 @@ func init() {
 				rep := col.VerifReport()
 				// the property's oracle on the report itself
 				verdict := "ok"
+				// a list handed out earlier belongs to its reader: later rounds must not rewrite it
+				for _, h := range heldLists {
+					for i := range h.list {
+						if h.list[i].Name != h.names[i] {
+							verdict = "EARLIER-REPORT-REWRITTEN"
+						}
+					}
+				}
+				cur := col.HotKeys()
+				var names []string
+				for _, k := range cur {
+					names = append(names, k.Name)
+				}
+				heldLists = append(heldLists, heldList{cur, names})
+				if len(heldLists) > 4 {
+					heldLists = heldLists[1:]
+				}
 				seen := map[string]bool{}
 				prev := 256
 				if len(rep) > cap {
